@@ -284,7 +284,7 @@ def shard(col, shard_i, ngrammars, ninputs):
         from tatsu.util import safe_name
         for i, rep in zip(idx, reps):
             gsafe = {'rules': [(safe_name(n), d, e) for n, d, e in chunk[i].g['rules']]}   # generated methods are named safe_name(rule)
-            out[i] = E.model_outcome(rep, gsafe)
+            out[i] = E.model_outcome(rep, gsafe, chunk[i].semspec)
         gen_model += out
     for (c, io, mo, extra), gm in zip(results, gen_model):
         fp = [E.grammar_text(c.g), c.text, c.settings.kwargs(), repr(c.semspec)]
